@@ -30,6 +30,10 @@ BACKEND = {
 }
 
 
+_SET_ZERO_KILLS = True
+_SET_ZERO_REGIME = None
+
+
 def call_kind(fn):
     a = fn.args
     pos = [p.arg for p in a.args]
@@ -91,6 +95,16 @@ def check(ctx):
     ops = operator_classes(model)
     rep.floor('R2', 'Operator subclasses with _call', len(ops), 105)
     kinds = {'dual': 0, 'inplace': 0, 'oop': 0}
+    # kill semantics of set_zero() derived from _lincomb_impl (C01 engine)
+    from .c01 import set_zero_kills
+    try:
+        kills, regime = set_zero_kills(ctx, model)
+    except Undecided as e:
+        raise AnalysisError('cannot derive the semantics of set_zero(): %s'
+                            % e)
+    rep.analysed['set_zero_kills_old_content'] = kills
+    global _SET_ZERO_KILLS, _SET_ZERO_REGIME
+    _SET_ZERO_KILLS, _SET_ZERO_REGIME = kills, regime
     for ci, fn in ops:
         kind = call_kind(fn)
         kinds[kind] += 1
@@ -130,7 +144,8 @@ def _check_call(rep, model, ci, fn, kind, controls=None):
             forced['%s is not None' % xn] = True
         arm = 'ip' if inplace else 'oop'
         try:
-            an = Analyzer(model, ci, fn, tracked, forced)
+            an = Analyzer(model, ci, fn, tracked, forced,
+                          set_zero_kills=_SET_ZERO_KILLS)
             paths = an.run()
         except Undecided as e:
             rep.undecided('R2', '%s._call:%s' % (q, arm), str(e), rel,
@@ -216,9 +231,14 @@ def _r3(rep, ci, fn, q, live):
                       'that is not part of a covering sequence: `%s`'
                       % e.text, rel, e.line)
     else:
+        extra = ''
+        if 'set_zero' in e.text and not _SET_ZERO_KILLS:
+            extra = (' -- set_zero() is lincomb(0, x, 0, x, out=x), which '
+                     'in the %s regime of _lincomb_impl computes 0*x + 0*x '
+                     'and keeps NaN/inf' % _SET_ZERO_REGIME)
         rep.violation('R3', cons, 'the previous contents of out are read '
-                      '(%s) before out is fully written: `%s`'
-                      % (e.kind, e.text), rel, e.line)
+                      '(%s) before out is fully written: `%s`%s'
+                      % (e.kind, e.text, extra), rel, e.line)
 
 
 def _short(a):
